@@ -9,13 +9,14 @@
    A theorem whose name ends in `_by_construction` restates a branch of the model's definition: its
    content is the tie, not the proof.
 
+   Sessions 5: determining_set_solves and the rank verdicts are proved on the exact NUMERIC model (sections 6, 7 below) and
+   joined with this count model; every theorem of sections 7 / 8 whose name ends in _if_numeric_verdict_exact assumes that the
+   oracle IS the exact verdict (oracle_is_model) - binary64 rank decisions are best effort, and on sets with enough equations
+   that do not determine the terms the library legitimately may answer differently (the property claims nothing there).
    NOT proved here (see docs/design_C20.md "Not proved / tested only"):
-   - determining_set_solves ("full column rank of the exact system => the numeric verdict is positive and
-     the correction is exact"): decided per case, on every run, by the exact-rank oracle of
-     lib/solvecount.py against the real library (support, not proof);
+   - anything about binary64 rounding; the leakage terms outside the linear systems (a never-measured leakage term is 0);
    - anything about the TRL path beyond its dispatch condition (it performs no count test);
-   - order-independence of the number of registered unknown parameters and of the numeric verdict
-     (the oracle sees the standards in the order they were added). *)
+   - order-independence of the number of registered unknown parameters. *)
 Require Import List Arith Permutation.
 Import ListNotations.
 Require Import LV.SolveCount.CountModel LV.SolveCount.CountProofs.
@@ -562,7 +563,7 @@ Print Assumptions ls_model_answers_iff_full_rank.
         site answers (E12 conversion: the leading reflection-tracking terms are non-zero)  =>  vnacal_new_solve
         succeeds: (solved st, Ok);
         some system at some frequency has enough equations but is rank deficient  =>  EDOM, state unchanged. *)
-Theorem count_test_and_full_rank_solve (o : CM.oracle) (st : CM.state)
+Theorem count_test_and_full_rank_solve_if_numeric_verdict_exact (o : CM.oracle) (st : CM.state)
         (vals : nat -> list (mvals qops)) (pvalf : nat -> Z -> qi) :
   let cf := CM.st_cf st in
   let ty := cty (CM.cf_ty cf) in
@@ -576,9 +577,9 @@ Theorem count_test_and_full_rank_solve (o : CM.oracle) (st : CM.state)
   (forall f, f < CM.st_freqs st -> o (CM.view_of st) f ns = true) ->
   CM.solve o CM.NoFault st = (CP.solved st, CM.Ok).
 Proof. exact (count_and_rank_solve_lemma o st vals pvalf). Qed.
-Print Assumptions count_test_and_full_rank_solve.
+Print Assumptions count_test_and_full_rank_solve_if_numeric_verdict_exact.
 
-Theorem rank_deficient_edom (o : CM.oracle) (st : CM.state)
+Theorem rank_deficient_edom_if_numeric_verdict_exact (o : CM.oracle) (st : CM.state)
         (vals : nat -> list (mvals qops)) (pvalf : nat -> Z -> qi) (f k : nat) :
   let cf := CM.st_cf st in
   let ty := cty (CM.cf_ty cf) in
@@ -590,7 +591,7 @@ Theorem rank_deficient_edom (o : CM.oracle) (st : CM.state)
   n <= length rows -> rows_deficient n rows ->
   CM.solve o CM.NoFault st = (st, CM.Err CM.EDOM).
 Proof. exact (fun Hfv Hp Ho => rank_deficient_edom_lemma o st vals pvalf Hfv Hp Ho f k). Qed.
-Print Assumptions rank_deficient_edom.
+Print Assumptions rank_deficient_edom_if_numeric_verdict_exact.
 
 (* the two models use the same number of unknowns and systems (every type, all dimensions) *)
 Theorem count_model_layout_agrees (ty : CM.ctype) (r c : nat) :
@@ -598,7 +599,7 @@ Theorem count_model_layout_agrees (ty : CM.ctype) (r c : nat) :
 Proof. exact (conj (unknowns_agree ty r c) (systems_agree ty c)). Qed.
 Print Assumptions count_model_layout_agrees.
 
-Example count_test_and_full_rank_solve_satisfiable :
+Example count_test_and_full_rank_solve_if_numeric_verdict_exact_satisfiable :
   let st := cm_state [2; 3; 4; 5] in
   let vals := fun _ : nat => ms_of [3; 4; 5; 6]%Z in
   let pvalf := fun _ : nat => EndToEnd.ex_pval4 in
@@ -611,7 +612,7 @@ Example count_test_and_full_rank_solve_satisfiable :
   CM.solve o CM.NoFault st = (CP.solved st, CM.Ok).
 Proof. exact count_and_rank_example. Qed.
 
-Example rank_deficient_edom_satisfiable :
+Example rank_deficient_edom_if_numeric_verdict_exact_satisfiable :
   let st := cm_state [2; 2; 3; 2] in
   let vals := fun _ : nat => ms_of [3; 3; 4; 3]%Z in
   let pvalf := fun _ : nat => EndToEnd.ex_pval4 in
@@ -630,7 +631,7 @@ Proof. exact rank_deficient_edom_example. Qed.
    matrix; where it rejects, add_common returns Rejected; Undefined: no claim.
    PROVED IN GENERAL (every configuration, every history): if every call of a history satisfies link_ok, the two models count
    the same equations per system after the history (counts_link), hence counts_agree (counts_agree_of_link) and the join
-   theorems without that hypothesis (count_and_rank_solve_linked, rank_deficient_edom_linked).
+   theorems without that hypothesis (count_and_rank_solve_linked_if_numeric_verdict_exact, rank_deficient_edom_linked_if_numeric_verdict_exact).
    BOUNDED: link_ok itself is decided by the kernel VM on an explicit sweep - all 8 types x dimensions 1..3 x 1..3 that
    vnacal_new_alloc accepts (48 configurations) x seven call generators: 138354 calls (link_sweep_counts), and 25346 calls
    with error modelling on T16/U16 - not proved for all arguments (argument checks, sorted port map, zero fill,
@@ -660,6 +661,7 @@ Theorem link_sweep_counts :
    N.of_nat (length (filter (fun x => verdict_is (CM.check_args (fst x) (snd x)) CM.Accept) link_cases_16)),
    N.of_nat (length (filter (fun x => CP.accepted (fst x) true (snd x)) link_cases_16))) = (25346, 7818, 5622)%N.
 Proof. exact link_case_counts. Qed.
+Print Assumptions link_sweep_counts.
 
 (* general: every configuration, every history *)
 Theorem counts_link (cf : CM.config) (F : nat) (v : bool) (l : list CM.add_args) (k : nat) :
@@ -678,7 +680,7 @@ Theorem counts_agree_of_link (cf : CM.config) (F : nat) (l : list CM.add_args)
 Proof. exact (counts_agree_of_link_lemma cf F l vals pvalf). Qed.
 Print Assumptions counts_agree_of_link.
 
-Theorem count_and_rank_solve_linked (o : CM.oracle) (cf : CM.config) (F : nat) (l : list CM.add_args)
+Theorem count_and_rank_solve_linked_if_numeric_verdict_exact (o : CM.oracle) (cf : CM.config) (F : nat) (l : list CM.add_args)
       (vals : nat -> list (mvals qops)) (pvalf : nat -> Z -> qi) :
   let st := CP.run_adds (CM.init cf F true) l in
   let ty := cty (CM.cf_ty cf) in
@@ -693,10 +695,10 @@ Theorem count_and_rank_solve_linked (o : CM.oracle) (cf : CM.config) (F : nat) (
   (forall f, f < F -> o (CM.view_of st) f ns = true) ->
   CM.solve o CM.NoFault st = (CP.solved st, CM.Ok).
 Proof. exact (count_and_rank_solve_linked_lemma o cf F l vals pvalf). Qed.
-Print Assumptions count_and_rank_solve_linked.
+Print Assumptions count_and_rank_solve_linked_if_numeric_verdict_exact.
 
 (* "enough equations" is now the count test of the count model, through the link *)
-Theorem rank_deficient_edom_linked (o : CM.oracle) (cf : CM.config) (F : nat) (l : list CM.add_args)
+Theorem rank_deficient_edom_linked_if_numeric_verdict_exact (o : CM.oracle) (cf : CM.config) (F : nat) (l : list CM.add_args)
       (vals : nat -> list (mvals qops)) (pvalf : nat -> Z -> qi) (f k : nat) :
   let st := CP.run_adds (CM.init cf F true) l in
   let n := SolveSimple.unknowns (cty (CM.cf_ty cf)) (CM.cf_r cf) (CM.cf_c cf) in
@@ -708,9 +710,9 @@ Theorem rank_deficient_edom_linked (o : CM.oracle) (cf : CM.config) (F : nat) (l
   rows_deficient n (q_assemble (cty (CM.cf_ty cf)) (CM.cf_r cf) (CM.cf_c cf) (vals f) (pvalf f) k) ->
   CM.solve o CM.NoFault st = (st, CM.Err CM.EDOM).
 Proof. exact (count_ok_rank_deficient_edom_linked_lemma o cf F l vals pvalf f k). Qed.
-Print Assumptions rank_deficient_edom_linked.
+Print Assumptions rank_deficient_edom_linked_if_numeric_verdict_exact.
 
-Example count_and_rank_solve_linked_satisfiable :
+Example count_and_rank_solve_linked_if_numeric_verdict_exact_satisfiable :
   let st := CP.run_adds (CM.init cm_cf 1 true) lk_calls in
   let vals := fun _ : nat => ms_of [3; 4; 5; 6]%Z in
   let pvalf := fun _ : nat => EndToEnd.ex_pval4 in
@@ -720,3 +722,107 @@ Example count_and_rank_solve_linked_satisfiable :
   counts_agree st vals pvalf /\
   CM.solve o CM.NoFault st = (CP.solved st, CM.Ok).
 Proof. exact count_and_rank_linked_example. Qed.
+
+
+(* ==================================================================================================
+   DD90 (review round 2, H1).  With unknown parameters _vnacal_new_solve_auto compared only the TOTALS
+   (vn_equations + correlated < x_length + p_length); for UE14 / E12 (one linear system per column) a column could have fewer
+   equations than error terms while the total passed, and vnacal_new_solve returned 0 with invented terms.  fixes/DD90 adds the
+   per-system test of the simple path; CountModel.count_deficient follows the repaired code (short_system || totals),
+   CountModel.count_deficient_before_DD90 is the old reading (model_variant_before_DD90). *)
+Require Import LV.SolveCount.DeterminingDD90.
+
+(* every type, dimensions, history, >= 1 frequency: unknown parameters, not the TRL shape, SOME system has fewer equations than
+   error terms => EDOM, object unchanged (whatever the totals) *)
+Theorem underdetermined_edom_unknown_parameters_short_system (o : CM.oracle) (cf : CM.config) (F : nat)
+        (stds : list CM.add_args) (k : nat) :
+  let st := CP.run_adds (CM.init cf F true) stds in
+  0 < F -> CM.st_unknown st <> 0 -> CM.is_trl st = false ->
+  k < CM.systems (CM.cf_ty cf) (CM.cf_c cf) ->
+  CM.sys_count st k < CM.unknowns (CM.cf_ty cf) (CM.cf_r cf) (CM.cf_c cf) ->
+  CM.solve o CM.NoFault st = (st, CM.Err CM.EDOM).
+Proof. exact (underdetermined_auto_short_system_edom_l o cf F stds k). Qed.
+Print Assumptions underdetermined_edom_unknown_parameters_short_system.
+
+(* the reviewer's calibration: UE14 2x2, a through, six reflects on port 1 (one an unknown parameter), a short on port 2:
+   column 1 has 3 equations for 5 error terms, the totals pass (11 >= 10 + 1) *)
+Example underdetermined_edom_unknown_parameters_short_system_satisfiable :
+  CM.alloc_ok CM.UE14 2 2 = true /\ CM.solve_path dd90_st = CM.PAuto /\ CM.st_unknown dd90_st = 1 /\ CM.is_trl dd90_st = false /\
+  CM.unknowns CM.UE14 2 2 = 5 /\ CM.sys_count dd90_st 0 = 8 /\ CM.sys_count dd90_st 1 = 3 /\
+  CM.st_equations dd90_st + CM.st_corr dd90_st >= CM.x_length dd90_st + CM.st_unknown dd90_st /\
+  CM.count_deficient_before_DD90 dd90_st = false /\ CM.count_deficient dd90_st = true /\
+  (forall o, CM.solve o CM.NoFault dd90_st = (dd90_st, CM.Err CM.EDOM)).
+Proof. exact dd90_witness. Qed.
+
+(* for the code before DD90 the statement "a system short of equations is refused by the count test" is false *)
+Theorem short_system_refused_refuted_for_model_variant_before_DD90 :
+  exists st k, CM.st_fvalid st = true /\ 0 < CM.st_freqs st /\ CM.st_unknown st <> 0 /\ CM.is_trl st = false /\
+    k < CM.systems (CM.cf_ty (CM.st_cf st)) (CM.cf_c (CM.st_cf st)) /\
+    CM.sys_count st k < CM.unknowns (CM.cf_ty (CM.st_cf st)) (CM.cf_r (CM.st_cf st)) (CM.cf_c (CM.st_cf st)) /\
+    CM.count_deficient_before_DD90 st = false.
+Proof. exact short_system_refused_refuted_before_DD90. Qed.
+Print Assumptions short_system_refused_refuted_for_model_variant_before_DD90.
+
+(* ==================================================================================================
+   Review round 2, M2: from a concrete family of standards to "the set determines the terms" (coq/SolveCount/DeterminingSol.v).
+   The textbook one-port short - open - match on T8, standards entered through add_common as coded: for ANY three measured values
+   with m_short <> m_open the assembled coefficient matrix has full column rank, so the model solve succeeds; for measurements
+   that come from ANY error box Ts, Ti, Tx (Tm = 1) with 1 - Tx <> 0, 1 + Tx <> 0 (the measurements exist) and Ts - Ti Tx <> 0
+   (the box is invertible) the result is exactly that box.  Only this family; two-port SOLT and the other types are decided
+   per case by the exact-rank oracle and the numeric-model tie of checks/C20.py. *)
+Require Import LV.SolveCount.DeterminingSol LV.SolveCount.DeterminingE12.
+
+Theorem sol_one_port_t8_determines (ms mo ml : CField.F QcI.QIF) : ms <> mo ->
+  length (q_assemble LayoutGen.T8 1 1 (sol_ms LayoutGen.T8 ms mo ml) sol_pval 0) = 3 /\
+  SolveSimple.unknowns LayoutGen.T8 1 1 = 3 /\
+  kernel_trivial 3 (q_assemble LayoutGen.T8 1 1 (sol_ms LayoutGen.T8 ms mo ml) sol_pval 0).
+Proof. exact (sol_t8_full_rank ms mo ml). Qed.
+Print Assumptions sol_one_port_t8_determines.
+
+Theorem sol_one_port_t8_solves (ms mo ml : CField.F QcI.QIF) : ms <> mo ->
+  exists x, q_solve_system LayoutGen.T8 1 1 (sol_ms LayoutGen.T8 ms mo ml) sol_pval 0 =
+            SysOk (q_assemble LayoutGen.T8 1 1 (sol_ms LayoutGen.T8 ms mo ml) sol_pval 0) x.
+Proof. exact (sol_t8_solves ms mo ml). Qed.
+Print Assumptions sol_one_port_t8_solves.
+
+Theorem sol_one_port_t8_recovers_error_box (ts ti tx : CField.F QcI.QIF) :
+  CField.csub CField.c1 tx <> CField.c0 -> CField.cadd CField.c1 tx <> CField.c0 ->
+  CField.csub ts (CField.cmul ti tx) <> CField.c0 ->
+  q_solve_system LayoutGen.T8 1 1
+    (sol_ms LayoutGen.T8 (box_m ts ti tx (CField.copp CField.c1)) (box_m ts ti tx CField.c1) (box_m ts ti tx CField.c0)) sol_pval 0 =
+  SysOk (q_assemble LayoutGen.T8 1 1
+           (sol_ms LayoutGen.T8 (box_m ts ti tx (CField.copp CField.c1)) (box_m ts ti tx CField.c1) (box_m ts ti tx CField.c0)) sol_pval 0)
+        [ts; ti; tx].
+Proof. exact (sol_t8_recovers_error_box ts ti tx). Qed.
+Print Assumptions sol_one_port_t8_recovers_error_box.
+
+Example sol_one_port_t8_recovers_error_box_satisfiable :
+  let ts : CField.F QcI.QIF := mkqi 2 1 0 1 in let ti : CField.F QcI.QIF := mkqi 1 2 0 1 in let tx : CField.F QcI.QIF := mkqi 1 4 0 1 in
+  CField.csub (@CField.c1 QcI.QIF) tx <> @CField.c0 QcI.QIF /\ CField.cadd (@CField.c1 QcI.QIF) tx <> @CField.c0 QcI.QIF /\
+  CField.csub ts (CField.cmul ti tx) <> @CField.c0 QcI.QIF.
+Proof. exact sol_t8_recovers_error_box_example. Qed.
+
+(* Review round 2, M4: E12.  SolveSimple.convert_ue14_to_e12 is total (x / 0 = 0 in the model's field) whereas the C function
+   returns EDOM when a um term is zero (vnacal_new_solve.c:690; modelled by EndToEndE12Check.convert_ue14_to_e12_checked).  With
+   the premise "every um term of the solved vector is non-zero" the checked conversion takes its success path and returns what
+   determining_set_solves states; without it determining_set_solves (section 6d) says nothing about the C outcome for E12. *)
+Theorem determining_set_solves_e12_checked mr mc (ms : list (mvals qops)) (pval : Z -> qi) (xs_true : list (list qi)) :
+  let n := SolveSimple.unknowns E12_UE14 mr mc in
+  let nsys := systems_of E12_UE14 mc in
+  let e14 := e_vector qops E12_UE14 mr mc ms xs_true in
+  length xs_true = nsys ->
+  (forall sys, sys < nsys ->
+     let xt := nth sys xs_true [] in
+     let rows := q_assemble E12_UE14 mr mc ms pval sys in
+     length xt = n /\ (forall r, In r rows -> rdot n (fst r) xt = snd r) /\
+     n <= length rows /\ kernel_trivial n rows) ->
+  (forall c r, c < mc -> r < mr -> EndToEndE12Check.um_of qops mr mc e14 c r <> qi0) ->
+  q_error_terms E12_UE14 mr mc ms pval = Some (convert_ue14_to_e12 qops mr mc e14) /\
+  EndToEndE12Check.q_convert_checked mr mc e14 = Some (convert_ue14_to_e12 qops mr mc e14).
+Proof. exact (determining_set_solves_e12_checked_lemma mr mc ms pval xs_true). Qed.
+Print Assumptions determining_set_solves_e12_checked.
+
+(* a witness that exercises the E12 conversion (one-port E12: el = -1/4, er = 11/24, em = 1/6) *)
+Example determining_set_solves_e12_checked_satisfiable :
+  ltac:(let T := type of determining_set_solves_e12_example in exact T).
+Proof. exact determining_set_solves_e12_example. Qed.
